@@ -27,7 +27,7 @@ CRASH_CLASSES = [Crash] + [type("Crash" + b.__name__, (Crash, b), {})
 
 DISTINCT_CRASH_CLASSES = []
 for _c in CRASH_CLASSES:
-    if _c not in DISTINCT_CRASH_CLASSES:
+    if _c.__name__ not in [x.__name__ for x in DISTINCT_CRASH_CLASSES]:
         DISTINCT_CRASH_CLASSES.append(_c)
 
 
